@@ -173,3 +173,24 @@ SPECS.append({
  "manifest": {"text": "Bounded symbolic model checking of the loader's retry / fallback ladder over a file-system fault model; fault kinds, transient-fault length and retry configuration are explored exhaustively within the bound, delays symbolically.",
               "note": "Trusted: executor, z3/cvc5, file-system fault model, decoder stub. Bounds: attempts <= 4, <= 2 entries per file."},
 })
+
+SPECS.append({
+ "property_id": "C20", "level": "model_checking",
+ "explanation": "Relational (two-run) symbolic execution: q is a vector of symbolic lower-case letters and q' flips the case of every letter according to symbolic mask bits, so one unsat covers every re-spelling. Compared stage by stage (index/query tokeniser, NLP analysis fields, expanded term list) and end to end through SearchUniversal on the lexical, NLP and typo-fallback paths (commands and scores position by position). CLI whitespace: ValidateQuery of a query padded with symbolic ASCII whitespace equals ValidateQuery of the plain spelling.",
+ "assumptions": ["ASCII letters only (code points whose lower-casing is irregular are excluded by the property itself; the bound is tightened to < 0x80)", "queries of 2-5 bytes (at most one inner space)", "the CLI searches with the validated string (process-level printing is C17's)"],
+ "stubs": ["regexp ASCII-class stub", "strings.ToLower intrinsic (exact for ASCII, real body otherwise)"],
+ "outside_the_claim": ["non-ASCII letters", "queries longer than 5 bytes", "the cached path's key normalisation (C05)"],
+ "trusted_base": TB,
+ "harnesses": [
+  H("C20", DB, "Stages3", "both", ["stages"], "3 letters, every case mask", "tokeniser + NLP analysis + expansion agree"),
+  H("C20", DB, "Stages4", "both", ["stages"], "4 letters", "same (4-letter action / target words)"),
+  H("C20", DB, "Stages5", "thorough", ["stages"], "2 letters, space, 2 letters", "same"),
+  H("C20", DB, "EndToEnd2", "both", ["compared", "nonempty"], "2 letters; lexical + fuzzy fallback", "same ranked answer"),
+  H("C20", DB, "EndToEnd2NLP", "both", ["compared", "nonempty"], "2 letters; NLP + fuzzy", "same ranked answer"),
+  H("C20", DB, "EndToEnd3", "thorough", ["compared", "nonempty"], "3 letters", "same"),
+  H("C20", DB, "EndToEnd5NLP", "thorough", ["compared", "nonempty"], "2+2 letters, NLP", "same"),
+  H("C20", "internal/validation", "Whitespace", "both", ["compared"], "two words of printable non-meta ASCII; pads of 0-2 symbolic whitespace bytes", "padding never changes the searched query"),
+ ],
+ "manifest": {"text": "Relational bounded symbolic model checking: the query and an arbitrary case re-spelling share one symbolic byte vector (mask bits), compared at every consumer of the query and end to end.",
+              "note": "Trusted: executor + intrinsics, z3, go/ssa. Bounds: ASCII, <=5 query bytes, 7-command database."},
+})
